@@ -156,6 +156,7 @@ def run_check(pid, tier, seed, t0, replay):
         gen_note = translate.regenerate()
     ok, log = lean_build(modules)
     proof_obl = []
+    leanchecker_note = None
     if not ok:
         # distinguish a broken driver (infrastructure) from a broken proof module
         ok_drv, log_drv = lean_build([])
@@ -173,6 +174,12 @@ def run_check(pid, tier, seed, t0, replay):
         hits = forbidden_hits(modules)
         if hits:
             problems.append(("proof", "forbidden constructs in Lean sources: " + "; ".join(hits[:5])))
+        if tier == "thorough":
+            # independent re-check of the compiled property modules by leanchecker
+            r = sh(f"lake env leanchecker {' '.join(modules)}", cwd=LEAN, timeout=1800)
+            leanchecker_note = "leanchecker " + ("accepted " if r.returncode == 0 else "REJECTED ") + " ".join(modules)
+            if r.returncode != 0:
+                problems.append(("proof", leanchecker_note + ": " + (r.stdout + r.stderr)[-800:]))
     # ---- 2. implementation side
     from harness import runner
     res = runner.explore(pid, tier, seed, replay=replay)
@@ -220,7 +227,8 @@ def run_check(pid, tier, seed, t0, replay):
             "evaluations": res["steps"], "distinct_nontrivial": res["nontrivial"],
             "rule": res["rule"], "samples": res["samples"], "scenarios": res["scenarios"],
             "input_distribution": res["distribution"], "branches": res["branches"], "ties_accepted": res["ties"],
-            "corpus": res["corpus"], "known_findings_hit": known_hits, "gen": gen_note,
+            "corpus": res["corpus"], "known_findings_hit": known_hits, "gen": gen_note, "leanchecker": leanchecker_note,
+            "paired_runs": res.get("paired_runs", 0),
             "exhaustive": False,
         },
         "assumptions": ["float rounding error of the implementation stays below relative 1e-9 per phase",
